@@ -35,7 +35,7 @@ def known_keys(pid):
 
 def run_config(mod, pid, tier, config, repo=None, facts_name=None):
     facts_dir, st = extract.extract(config, repo=repo or extract.REPO, facts_name=facts_name)
-    F = Facts(facts_dir, getattr(mod, "CRATES", None))
+    F = Facts(facts_dir, None)   # all workspace crates: rules inline across crates and depend on other properties' rules
     sub = Reporter(pid, tier)
     for name in list(sys.modules):
         m = sys.modules[name]
@@ -130,7 +130,7 @@ def main():
     mod = importlib.import_module(pid.lower())
     primary = os.environ.get("VERIF_CONFIG", "workspace")   # debugging aid: run the quick rules on another configuration
     facts_dir, st = extract.extract(primary, force=a.force)
-    F = Facts(facts_dir, getattr(mod, "CRATES", None))
+    F = Facts(facts_dir, None)   # all workspace crates: rules inline across crates and depend on other properties' rules
     R = Reporter(pid, a.tier, seed)
     R.configs.append({"name": primary, "cargo": "cargo +nightly check --offline " + " ".join(extract.CONFIGS[primary]),
                       "tree_hash": st["tree_hash"], "cache_hit": st.get("cache_hit", False)})
